@@ -330,5 +330,107 @@ theorem after_failed_fetch_pass (t : Tid) (now now' ttl : Int) (so : Load) (e : 
   rw [h1, h2]
   rfl
 
+/-- total distance of the requests in `ts` from being answered -/
+def total (ts : List Tid) (s : State) : Nat := (ts.map fun t => rank (s.pc t)).sum
+
+/-- events that make progress: thread steps and upstream endings -/
+def workEvent (ev : Event) : Bool :=
+  threadEvent ev || (match ev with | .upEnd _ _ => true | _ => false)
+
+def isArrival : Event → Bool
+  | .arrive _ _ => true
+  | .arrivePass _ => true
+  | _ => false
+
+theorem sum_le_of_pointwise {α : Type} (l : List α) (f g : α → Nat) (h : ∀ a ∈ l, f a ≤ g a) :
+    (l.map f).sum ≤ (l.map g).sum := by
+  induction l with
+  | nil => simp
+  | cons a l ih =>
+    simp only [List.map_cons, List.sum_cons]
+    have := h a List.mem_cons_self
+    have := ih (fun b hb => h b (List.mem_cons_of_mem _ hb))
+    omega
+
+theorem sum_lt_of_pointwise {α : Type} (l : List α) (f g : α → Nat) (h : ∀ a ∈ l, f a ≤ g a)
+    (a : α) (ha : a ∈ l) (hlt : f a < g a) : (l.map f).sum + 1 ≤ (l.map g).sum := by
+  induction l with
+  | nil => simp at ha
+  | cons b l ih =>
+    simp only [List.map_cons, List.sum_cons]
+    have hb := h b List.mem_cons_self
+    have hrest := sum_le_of_pointwise l f g (fun c hc => h c (List.mem_cons_of_mem _ hc))
+    rcases List.mem_cons.mp ha with e | e
+    · subst e; omega
+    · have := ih (fun c hc => h c (List.mem_cons_of_mem _ hc)) e
+      omega
+
+
+/-- BOUNDED COMPLETION (trace level).  Take any finite set `ts` of requests containing every
+request that is under way.  Along ANY schedule without new arrivals — thread steps, upstream
+endings, clock ticks, evictions, purges and store outcomes interleaved in any order — the number
+of thread steps and upstream endings performed is at most the total distance `total ts` the
+requests had at the start (≤ 12 per request): the system cannot spin, wake-ups cannot be lost
+into extra work, and together with `progress` (some thread step is always enabled while a
+request is unanswered and no upstream call is pending) every request is answered after finitely
+many — explicitly bounded — steps. -/
+theorem bounded_completion (ts : List Tid) :
+    ∀ (evs : List Event) (s s' : State), Inv s → (∀ u, u ∉ ts → rank (s.pc u) = 0) →
+      (∀ ev ∈ evs, isArrival ev = false) → run Facts.waiterRereadsEntry s evs = some s' →
+      (evs.filter workEvent).length + total ts s' ≤ total ts s := by
+  intro evs
+  induction evs with
+  | nil =>
+    intro s s' _ _ _ hr
+    simp only [run, Option.some.injEq] at hr
+    subst hr; simp
+  | cons ev evs ih =>
+    intro s s' hi hout hna hr
+    simp only [run] at hr
+    cases hst : step Facts.waiterRereadsEntry s ev with
+    | none => rw [hst] at hr; simp at hr
+    | some s1 =>
+      rw [hst] at hr
+      have hnarr : isArrival ev = false := hna ev List.mem_cons_self
+      obtain ⟨hmono, hdec⟩ := rank_decreases ev hst hi
+      have hmono' : ∀ u, rank (s1.pc u) ≤ rank (s.pc u) := by
+        intro u
+        rcases hmono u with h | ⟨k, h⟩ | h
+        · exact h
+        · subst h; simp [isArrival] at hnarr
+        · subst h; simp [isArrival] at hnarr
+      have hi1 : Inv s1 := by
+        have := hst; rw [C01.facts_handover.1] at this
+        exact inv_step hi ev this
+      have hout1 : ∀ u, u ∉ ts → rank (s1.pc u) = 0 := fun u hu => by
+        have := hmono' u; rw [hout u hu] at this; omega
+      have ih' := ih s1 s' hi1 hout1 (fun e he => hna e (List.mem_cons_of_mem _ he)) hr
+      have hle : total ts s1 ≤ total ts s := sum_le_of_pointwise ts _ _ (fun u _ => hmono' u)
+      by_cases hw : workEvent ev = true
+      · have hw' : threadEvent ev = true ∨ ∃ t o, ev = .upEnd t o := by
+          unfold workEvent at hw
+          rcases Bool.or_eq_true _ _ |>.mp hw with h | h
+          · exact Or.inl h
+          · right; cases ev <;> simp at h; exact ⟨_, _, rfl⟩
+        obtain ⟨u, hu⟩ := hdec hw'
+        have hmem : u ∈ ts := by
+          apply Classical.byContradiction
+          intro hn; have := hout u hn; omega
+        have hlt : total ts s1 + 1 ≤ total ts s := sum_lt_of_pointwise ts _ _ (fun u _ => hmono' u) u hmem hu
+        simp only [List.filter_cons, hw, if_true, List.length_cons]
+        omega
+      · simp only [List.filter_cons, hw]
+        simp only [Bool.false_eq_true, if_false]
+        omega
+
+/-- the bound in numbers: at most 12 work steps per request -/
+theorem rank_le_12 (p : Pc) : rank p ≤ 12 := by cases p <;> simp [rank]
+
+theorem total_le (ts : List Tid) (s : State) : total ts s ≤ 12 * ts.length := by
+  unfold total
+  induction ts with
+  | nil => simp
+  | cons t ts ih => simp only [List.map_cons, List.sum_cons, List.length_cons]; have := rank_le_12 (s.pc t); omega
+
 end C02
 end Pike
